@@ -72,10 +72,61 @@ func checkPolicy(t *core.T, sig string, pol *Policy, modes []PrintMode, layouts 
 			if !reflect.DeepEqual(got, want) {
 				t.Fail(fmt.Sprintf("wrong-tree:%s:mode%d", sig, m), src, fmt.Sprintf("%+v", *want), fmt.Sprintf("%+v", *got))
 			}
+			if l == layouts[0] {
+				// the other text entry points build the same tree: a used receiver, the public ast
+				// type, a policy list, a policy set and the streaming decoder
+				otherEntryPoints(t, sig, src, got)
+			}
 			t.AddTrans(1)
 		}
 	}
 	t.AddStates(1)
+}
+
+var usedText = []byte(`@old("x") forbid(principal is Old, action in [Old::"a"], resource == Old::"r") when { false } unless { context has old };`)
+
+func otherEntryPoints(t *core.T, sig, src string, want *xast.Policy) {
+	same := func(name string, got *xast.Policy, err error) {
+		if err != nil {
+			t.Fail("entry-point-rejects:"+name+":"+sig, src, "parses as Policy.UnmarshalCedar does", err.Error())
+			return
+		}
+		g := *got
+		g.Position = want.Position
+		if !reflect.DeepEqual(&g, want) {
+			t.Fail("entry-point-differs:"+name+":"+sig, src, fmt.Sprintf("%+v", *want), fmt.Sprintf("%+v", g))
+		}
+	}
+	var used cedar.Policy
+	_ = used.UnmarshalCedar(usedText)
+	err := used.UnmarshalCedar([]byte(src))
+	same("Policy.UnmarshalCedar(used receiver)", (*xast.Policy)(used.AST()), err)
+	var ap pa.Policy
+	_ = ap.UnmarshalCedar(usedText)
+	err = ap.UnmarshalCedar([]byte(src))
+	same("ast.Policy.UnmarshalCedar(used receiver)", (*xast.Policy)(&ap), err)
+	doc := string(usedText) + "\n" + src + "\n" + string(usedText)
+	if pl, err := cedar.NewPolicyListFromBytes("f.cedar", []byte(doc)); err != nil || len(pl) != 3 {
+		t.Fail("entry-point-rejects:NewPolicyListFromBytes:"+sig, doc, "3 policies", fmt.Sprint(len(pl), err))
+	} else {
+		same("NewPolicyListFromBytes", (*xast.Policy)(pl[1].AST()), nil)
+	}
+	if ps, err := cedar.NewPolicySetFromBytes("f.cedar", []byte(doc)); err != nil || ps.Get("policy1") == nil {
+		t.Fail("entry-point-rejects:NewPolicySetFromBytes:"+sig, doc, "3 policies", fmt.Sprint(err))
+	} else {
+		same("NewPolicySetFromBytes", (*xast.Policy)(ps.Get("policy1").AST()), nil)
+	}
+	d := cedar.NewDecoder(strings.NewReader(doc))
+	var reused cedar.Policy
+	for k := 0; k < 3; k++ {
+		if err := d.Decode(&reused); err != nil {
+			t.Fail("entry-point-rejects:Decoder:"+sig, doc, "3 policies", err.Error())
+			return
+		}
+		if k == 1 {
+			same("Decoder.Decode(reused variable)", (*xast.Policy)(reused.AST()), nil)
+		}
+	}
 }
 
 func describe(p *Policy) string {
